@@ -102,6 +102,16 @@ def run(ctx):
                        "with a panic iff some reference execution fails, with a class the reference has; the process must "
                        "survive; every later program in the same process must still match the twin; non-trivial = the "
                        "failure is not in the first iteration or the program has ≥ 2 iterations")
+    # at the branch limit: straight-line programs that need more branch entries than every limit tried (the entry that
+    # exceeds the limit is a thread choice, a load or a spurious decision depending on the limit): the panic must come
+    limit_programs = []
+    for body, need in (("st 0 2 rlx; ld 0 rlx; ld 0 rlx; ld 0 rlx", 8), ("ld 0 rlx; ld 0 rlx; ld 0 rlx", 7),
+                       ("fadd 0 1 rlx; ld 0 rlx; st 0 1 rlx; ld 0 rlx", 7)):
+        for lim in range(1, need):
+            limit_programs.append(f"cfg unwind=1 maxbr={lim} x=1 | T0: {body}")
+    limit_programs += [f"cfg unwind=1 maxbr={lim} x=1 n=1 | T0: spawn 1; st 0 1 rlx; nnotify 0; join 1 | T1: nwait 0; ld 0 rlx; ld 0 rlx"
+                       for lim in range(2, 8)]
+    programs = list(dict.fromkeys(programs + limit_programs))
     impl, twin, dis = ctx.correspond(programs, cap, view="safety")
     differing = {d["program"] for d in dis}
     sc = lvlib.run_sc(programs, 60000 if ctx.quick else 400000)
@@ -137,6 +147,9 @@ def run(ctx):
         elif mine not in verdicts:
             if not (mine.startswith("causality") and any(v.startswith("causality") for v in verdicts)):
                 failures.append((p, "forbidden", f"{mine} (the reference has {sorted(verdicts)})"))
+        if p in limit_programs and done[1] != "branchLimit":
+            failures.append((p, "forbidden", f"{done[1]}: the program needs more branches than max_branches allows in every "
+                             f"execution, the branch-limit panic must be raised (a model that spins would hang instead)"))
         if done[1] != "ok" and len(its) > 1 and len(ctx.cov["samples"]) < 4:
             ctx.sample({"program": p, "fails_in_iteration": len(its), "with": done[1]})
     unlisted = ctx.attribute(failures, differing)
